@@ -220,6 +220,9 @@ _OB = {
     "ob_with_settings_allocated_w": (["C18", "C10"], ["raw_bump::RawBump::{ensure_satisfies_settings,ensure_scope_satisfies_settings,ensure_satisfies_settings_for_borrow_mut,align_to}"],
                                      "each of the three conversions (Bump::with_settings, BumpScope::with_settings, borrow_mut_with_settings; target settings guaranteed-allocated or not) on an allocated, unclaimed arena returns with the position a multiple of the new (and old) minimum alignment, allocated bytes grow by < 16, wf",
                                      "K<=2, (1->8 up), (1->16 down), (1->8 down)"),
+    "ob_append_growth": (["C12", "C10", "C05"], ["raw_bump::NonDummyChunk::{append_for,grow_size,new}", "chunk::size::{ChunkSizeHint::for_capacity,ChunkSize}"],
+                         "append_for with an over-granting base allocator: the appended chunk holds the layout that caused it, its size is a multiple of 16 and at least twice the previous chunk's size less 16; chunks linked both ways; every chunk returned once",
+                         "one chunk of 64+24 granted bytes (power-of-two size regime; page-sized chunks exhaust CBMC), layout size <= 40, align <= 16"),
     "ob_by_value_unallocated": (["C05", "C07", "C12"], ["bump_scope::BumpScope::{by_value,try_by_value}", "raw_bump::RawBump::{make_allocated,manually_drop}"],
                                 "by_value / try_by_value on an unallocated arena: exactly one chunk is created, it is the ORIGINAL's current chunk afterwards, allocations through the by-value scope are visible in the original, dropping the original releases every chunk exactly once",
                                 "loop-free; first chunk of the minimum size"),
@@ -399,6 +402,19 @@ def _stub_h():
         k("h_stub::" + m.group(1), ["C09"], ["bump_string::BumpString::{try_insert,try_insert_str,try_replace_range,try_extend_from_within,truncate}", "bump_box::BumpBox<str>::assert_char_boundary", "polyfill::slice::range"], "B",
           "for every index / range that is out of range, inverted or not on a character boundary (symbolic over all of them) try_insert, try_insert_str, try_replace_range (bad start, bad end), try_extend_from_within and truncate never return (must-not-reach cover unsatisfiable; std::string::String panics in exactly these cases)",
           bound="text with UTF-8 length pattern [%s,%s], scalar values symbolic" % (m.group(3), m.group(4)), timeout=900, should_panic=True)
+
+    _eops = {"e_alloc": ("try_alloc", ["C17", "C01", "C07"]), "e_alloc_with": ("try_alloc_with", ["C17", "C01", "C07"]), "e_alloc_default": ("try_alloc_default", ["C17", "C01"]), "e_alloc_uninit": ("try_alloc_uninit + BumpBox::init", ["C17", "C01"]),
+             "e_slice_copy": ("try_alloc_slice_copy", ["C17", "C01", "C07"]), "e_slice_clone": ("try_alloc_slice_clone", ["C17", "C01"]), "e_slice_fill": ("try_alloc_slice_fill", ["C17", "C01"]), "e_slice_fill_with": ("try_alloc_slice_fill_with", ["C17", "C01"]),
+             "e_uninit_slice": ("try_alloc_uninit_slice", ["C17", "C01"]), "e_slice_move": ("try_alloc_slice_move", ["C06", "C17", "C01", "C07"]), "e_str": ("try_alloc_str", ["C17", "C09", "C01"]), "e_iter": ("try_alloc_iter", ["C17", "C01", "C07", "C08"]),
+             "e_iter_exact": ("try_alloc_iter_exact", ["C17", "C01", "C08"]), "e_cstr": ("try_alloc_cstr", ["C17", "C01"]), "e_cstr_from_str": ("try_alloc_cstr_from_str", ["C17", "C01"])}
+    for m in _re.finditer(r"^    (stub_scope_\w+): (true|false), (\d+), (true|false), (e_\w+);", txt, _re.M):
+        name, up, used, refused, op = m.groups()
+        meth, props = _eops[op]
+        k("h_stub::" + name, props, ["traits::BumpAllocatorTypedScope::%s (provided method: the implementation behind the inherent methods of Bump / BumpScope and every generic or dyn user)" % meth], "B",
+          "%s against the allocator contract: the result holds the value(s) (in order, closure called once per element), is a live block of the right size, aligned for the element type and disjoint from everything handed out before; a refused request is an error (slice_move: the values are dropped exactly once either way)" % meth,
+          bound="contract stub instead of the arena; 1..5 elements of u16/u32/u64 (symbolic values), `used` bytes handed out before", timeout=600, inst="UP=%s used=%s refused=%s" % (up, used, refused))
+    k("h_stub::stub_scope_slice_len_overflow_up", ["C07", "C17"], ["traits::BumpAllocatorTypedScope::try_alloc_uninit_slice"], "B",
+      "a slice length whose byte size overflows (every n > isize::MAX/4 for u32) is reported as an error", bound="contract stub; loop-free over all such n", timeout=600)
 
 
 _stub_h()
